@@ -331,6 +331,45 @@ func harnessC07() {
 	vDone()
 }
 
+// harnessC07same: ONE ID, accepted and dialled at the same instant (the connection info arrives while the Dial is
+// looking its pending entry up), plugin accepts / host dials or the reverse; small enough for two reversals.
+func harnessC07same() {
+	h2p, p2h := make(chan *plugin.ConnInfo, 8), make(chan *plugin.ConnInfo, 8)
+	hs := &gRPCBrokerClientImpl{client: vBrokerClient{h2p, p2h}, send: make(chan *sendErr), recv: make(chan *plugin.ConnInfo), quit: make(chan struct{})}
+	go func() { vDaemon(); hs.StartStream() }()
+	ps := newGRPCBrokerServer()
+	go func() { vDaemon(); ps.StartStream(&vBidi{vStreamBase{vCtx{}}, p2h, h2p}) }()
+	hb := newGRPCBroker(hs, nil, UnixSocketConfig{}, nil, nil2())
+	pb := newGRPCBroker(ps, nil, UnixSocketConfig{}, nil, nil2())
+	go func() { vDaemon(); hb.Run() }()
+	go func() { vDaemon(); vSetProc(1); pb.Run() }()
+	a := vNondetU32("a")
+	acc, dia, accProc, diaProc := pb, hb, 1, 0
+	if vChoice(2) == 1 {
+		vCover("host-accepts")
+		acc, dia, accProc, diaProc = hb, pb, 0, 1
+	} else {
+		vCover("plugin-accepts")
+	}
+	var ln net.Listener
+	var cc *grpc.ClientConn
+	var e1, e2 error
+	done := make(chan struct{}, 2)
+	go func() { vSetProc(accProc); ln, e1 = acc.Accept(a); done <- struct{}{} }()
+	go func() { vSetProc(diaProc); cc, e2 = dia.Dial(a); done <- struct{}{} }()
+	<-done
+	<-done
+	vAssert(e1 == nil && e2 == nil, "C07: accept and dial issued at the same moment both succeed")
+	vSetProc(diaProc)
+	nc, err := connG[cc].dialer("", 0)
+	vSetProc(0)
+	vAssert(err == nil, "C07: the first use of the dialled connection reaches a live listener")
+	got, _ := ln.Accept()
+	vAssert(got.(*vNetConn) == nc.(*vNetConn).peer, "C07: the connection dialled for ID a is served by the listener accepted for a")
+	vCover("routed")
+	vDone()
+}
+
 type noMux struct{}
 
 func nil2() *noMuxer { return nil }
